@@ -12,7 +12,7 @@ RULE = ("(a) EXACT by choice-point enumeration: for k in 1..3, n <= k+4, p = j/m
         "default p = 1/k and p in {0, 1}) every outcome of the library's draws is executed (random() walks the m grid cells, "
         "randrange(k) all k slots, leaf probabilities multiplied as rationals) and for EVERY prefix length n' <= n and every arrival t "
         "P(t retained at n') must EQUAL p(1-p/k)^(n'-t) (t > k) resp. (1-p/k)^(n'-k) (t <= k) as rationals - which includes P(new "
-        "arrival present right after it arrived) = p; the slot law P(slot s | entered) = 1/k is checked on the first replacement; in a third of the configurations the storage is copied (copy.deepcopy / copy.copy) after k or k+1 arrivals and the COPY carries on - same law, same p; half of the configurations feed EQUAL observations (low-cardinality stream, arrivals identified by their stored targets). "
+        "arrival present right after it arrived) = p; the slot law P(slot s | entered) = 1/k is checked on the first replacement; in a quarter of the configurations the storage is a user subclass overriding get_data() to hand out copies; in a third of the configurations the storage is copied (copy.deepcopy / copy.copy) after k or k+1 arrivals and the COPY carries on - same law, same p; half of the configurations feed EQUAL observations (low-cardinality stream, arrivals identified by their stored targets). "
         "(b) Monte-Carlo (exact binomial tails, two stages, delta 1e-9/1e-6) for off-grid p drawn by Hypothesis, larger k/n and the "
         "explainers' default (k=100, p=1/100). (c) Scripted: with p = 1 EVERY script of draws (including u = 0.0 and u = 1-2^-53) stores "
         "the newest arrival - the clause TreeStorage relies on. Non-trivial: n >= k+2 and 0 < p < 1; distinct = (k, n, p, outcome path) "
@@ -34,6 +34,10 @@ def law(k, p, n, t):
 def drive(k, p, n):
     """Returns the retained id sets after every update (list of tuples) and the slot of the first replacement."""
     from ixai.storage import GeometricReservoirStorage
+    if DUPLICATES.get('view'):
+        # a user subclass overriding get_data() to hand out copies: the sampler must not write through that hook
+        from .c07 import _snapshot_view
+        GeometricReservoirStorage = _snapshot_view(GeometricReservoirStorage)
     dup = DUPLICATES['on']
     if (k + n) % 2:
         s = GeometricReservoirStorage(size=k, constant_probability=p, store_targets=dup)
@@ -65,6 +69,7 @@ def run_enum(case):
     default = case.get('default', False)
     DUPLICATES['on'] = bool(case.get('duplicates'))
     DUPLICATES['fork'] = case.get('fork')
+    DUPLICATES['view'] = bool(case.get('view'))
     p_frac = Fraction(1, k) if default else Fraction(j, m)
     p_arg = None if default else (j / m if j not in (0, m) else (0 if j == 0 else 1))
     incl = {}
@@ -113,6 +118,9 @@ def run_scripted_p1(case):
     k, n = case['k'], case['n']
     src = rng.Scripted(case['script'])
     from ixai.storage import GeometricReservoirStorage
+    if case.get('view'):
+        from .c07 import _snapshot_view
+        GeometricReservoirStorage = _snapshot_view(GeometricReservoirStorage)
     with rng.patched_random(src):
         s = GeometricReservoirStorage(k, case['p1']) if k % 2 else GeometricReservoirStorage(size=k, constant_probability=case['p1'])
         for i in range(1, n + 1):
@@ -191,6 +199,8 @@ def run(ctx):
                     if per ** extra <= 30000:
                         break
                 case = {'k': k, 'n': k + extra, 'm': m, 'j': j, 'default': default, 'duplicates': (k + m + j) % 2 == 1}
+                if (k + m + j) % 4 == 1:
+                    case['view'] = True
                 if (k + 2 * m + j) % 3 == 0:
                     case['fork'] = [k + (j % 2), 'deep' if (m + j) % 4 else 'shallow']     # copied after k or k+1 arrivals
                 res = run_enum(case)
@@ -208,7 +218,7 @@ def run(ctx):
         ctx.extra['enumerated_leaves'] = total_leaves
         ctx.extra['exhaustive_subspaces'] = spaces
     # (c) scripted p = 1
-    s = st.fixed_dictionaries({'k': st.integers(1, 5), 'n': st.integers(1, 25), 'p1': st.sampled_from([1, 1.0]),
+    s = st.fixed_dictionaries({'k': st.integers(1, 5), 'n': st.integers(1, 25), 'p1': st.sampled_from([1, 1.0]), 'view': st.booleans(),
                                'script': st.lists(st.sampled_from([0, 2 ** 53 - 1]) | st.integers(0, 2 ** 53 - 1), min_size=1, max_size=40)})
     if not ctx.search('scripted_p1', s, run_scripted_p1, ctx.n(400, 16000)):
         return
